@@ -1029,6 +1029,8 @@ class Parsent(object):
         except (HTTPException, ValueError) as ex:  # ValueError from malformed sizes, urls, ports
             self.errored = True
             self.error = str(ex)
+            if self.closed:  # connection is gone so what is left of its bytes is of no use
+                del self.msg[:]
 
         self.ended = True
         self.started = False
